@@ -11,16 +11,16 @@ Definition am : mask := mkMask true true true.
    a PreFilter whose Reserve comes three events later, deletion, a max raise, capacity changes *)
 Definition ex_hist : list op :=
   [ OCapacity (v3 20 40 0);
-    OQuotaAdd 1 0 true cm (v3 10 20 0) cm (v3 4 8 0) (v3 0 0 0);
-    OQuotaAdd 2 1 true cm (v3 6 20 0) cm (v3 2 4 0) (v3 0 0 0);
-    OQuotaAdd 3 1 false cm (v3 8 10 0) cm (v3 2 4 0) (v3 1 1 0);
-    OPodAdd 1 2 false (v3 4 5 7) am; OPodAdd 2 2 false (v3 3 5 0) cm; OPodAdd 3 3 true (v3 2 2 0) cm;
-    OPodAdd 4 3 true (v3 1 3 0) cm;
+    OQuotaAdd 2 0 true cm (v3 10 20 0) cm (v3 4 8 0) (v3 0 0 0);
+    OQuotaAdd 3 2 true cm (v3 6 20 0) cm (v3 2 4 0) (v3 0 0 0);
+    OQuotaAdd 5 2 false cm (v3 8 10 0) cm (v3 2 4 0) (v3 1 1 0);
+    OPodAdd 1 3 false (v3 4 5 7) am; OPodAdd 2 3 false (v3 3 5 0) cm; OPodAdd 3 5 true (v3 2 2 0) cm;
+    OPodAdd 4 5 true (v3 1 3 0) cm;
     OAttempt 1; OAttempt 2; OAttempt 3; OAttempt 4;
-    OUnreserve 1; OCheck 2; OPodAdd 5 3 false (v3 1 0 0) cm; OCapacity (v3 30 40 0); OReserve 2;
+    OUnreserve 1; OCheck 2; OPodAdd 5 5 false (v3 1 0 0) cm; OCapacity (v3 30 40 0); OReserve 2;
     OPodDelete 2;
-    OQuotaUpdate 2 (v3 9 20 0) cm (v3 2 4 0) (v3 0 0 0);
-    OCapacity (v3 5 9 0); OAttempt 1; OAttempt 4 ].
+    OQuotaUpdate 3 (v3 9 20 0) cm (v3 2 4 0) (v3 0 0 0);
+    OQuotaFlipLend 5; OCapacity (v3 5 9 0); OAttempt 1; OAttempt 4 ].
 
 Lemma ex_hist_wf_proof : forall rt chk,
   wf_hist (mkConfig rt chk) init_state None ex_hist = true
@@ -47,11 +47,11 @@ Proof. vm_compute. reflexivity. Qed.
 (* ... and without parent checking a parent can pass its max through its children *)
 Lemma ex_parent_proof :
   let st := exec (mkConfig false false) init_state
-                 [OQuotaAdd 1 0 true cm (v3 4 4 0) cm (v3 0 0 0) (v3 0 0 0);
-                  OQuotaAdd 2 1 true cm (v3 4 4 0) cm (v3 0 0 0) (v3 0 0 0);
-                  OQuotaAdd 3 1 true cm (v3 4 4 0) cm (v3 0 0 0) (v3 0 0 0);
-                  OPodAdd 1 2 false (v3 3 1 0) cm; OPodAdd 2 3 false (v3 3 1 0) cm;
+                 [OQuotaAdd 2 0 true cm (v3 4 4 0) cm (v3 0 0 0) (v3 0 0 0);
+                  OQuotaAdd 3 2 true cm (v3 4 4 0) cm (v3 0 0 0) (v3 0 0 0);
+                  OQuotaAdd 5 2 true cm (v3 4 4 0) cm (v3 0 0 0) (v3 0 0 0);
+                  OPodAdd 1 3 false (v3 3 1 0) cm; OPodAdd 2 5 false (v3 3 1 0) cm;
                   OAttempt 1; OAttempt 2] in
   map (fun q => (q_id q, q_used q, q_taint q)) (quotas st)
-  = [(1, v3 6 2 0, true); (2, v3 3 1 0, false); (3, v3 3 1 0, false)].
+  = [(2, v3 6 2 0, true); (3, v3 3 1 0, false); (5, v3 3 1 0, false)].
 Proof. vm_compute. reflexivity. Qed.
